@@ -19,6 +19,7 @@ import (
 	posinfo "github.com/ipfs/boxo/filestore/posinfo"
 	dag "github.com/ipfs/boxo/ipld/merkledag"
 	"github.com/ipfs/boxo/verifshim/eng"
+	cid "github.com/ipfs/go-cid"
 	ds "github.com/ipfs/go-datastore"
 	dssync "github.com/ipfs/go-datastore/sync"
 )
@@ -329,9 +330,9 @@ func runURL(x *ctx, content []byte, rf ref, kind string, control bool, mk func(o
 		}
 		cls = "corrupt-" + cre.Code.String()
 	}
-	lr := filestore.Verify(bg, fs, c)
-	if lr.Status == filestore.StatusOk && !intact {
-		return eng.V("verify-ok-on-corrupt-reference", "Verify", fmt.Sprintf("%s: Verify status ok", x.id), feat...)
+	j := &statusJudge{x: x, feat: feat, intact: intact, control: control}
+	if v, _ := j.judgeAll(fs, c, cid.Undef); v != nil {
+		return v
 	}
 	x.outcome(fmt.Sprintf("url/%s/intact=%v", cls, intact))
 	return nil
